@@ -669,6 +669,16 @@ theorem C07_appended_fields_ignored (decP : Bytes → Option P) (p p' : Prefix) 
       (C07_additional_is_first _ ks).2 ⟨pre2, post2 ++ more, by rw [h2]; simp, hpre2⟩
     rw [this]
 
+omit [AddCommGroup P] in
+/-- **No `TxPublicKey` sub-field ⇒ `Err(NoTxPublicKey)`, from the extra BYTES**: for the serialization of any well-formed sequence
+without a `TxPublicKey` sub-field — additional keys or not, any outputs, any checker, any base — the scan is exactly
+`Err(NoTxPublicKey)`; additional keys alone never make an output reportable. -/
+theorem C07_no_tx_pubkey_field_errors (decP : Bytes → Option P) (p : Prefix) (ck : Checker P) (base : Option Base)
+    (fs : List SubField) (hw : WFSeq (validKey ops) fs) (hp : p.extra = (fs.map encSub).flatten)
+    (hno : ∀ f ∈ fs, ¬ IsTxPub f) :
+    checkOutputsWith ops decP p ck base = .error .noTxPublicKey := by
+  rw [checkOutputsWith_eq, (C07_keys_of_sender_extra p _ hw hp).1, (C07_tx_pubkey_none fs).2 hno]
+
 /-- non-vacuity of the premises of `C07_later_keys_ignored` / `C07_appended_fields_ignored` on the sub-field level: the first of
 two `TxPublicKey` sub-fields is the one returned -/
 example : txPubkey [.nonce [1], .txPub [2], .txPub [3]] = some [2] ∧
